@@ -572,7 +572,7 @@ def replay(path):
     with open(path) as f:
         r = json.load(f)
     info = r["info"]
-    ps = {p.id: p for p in CP.all_fixed()}
+    ps = {p.id: p for p in CP.catalogue()}
     p = ps[info["program"]]
     if info["kind"] == "fit":
         pos = flat_positions(p)
